@@ -125,6 +125,12 @@ def check(ctx, rep):
         rep.note("loop %s: event %s, scanned %s, counters %s" % (li.target.qualname, li.event_field, sorted(li.scanned), sorted(li.counters)))
     wake.check_loops(ctx, rep, loops, components="state")
     wake.check_producers(ctx, rep, loops)
+    # a worker that rebuilds its work list from a walk must not lose what a producer appends meanwhile: the entry
+    # would never be served and its future never complete (shared with C08 / C09)
+    rep.rule("R-GUARDED", "a work list that is rebuilt from a walk over itself is walked and stored back in one hold of the owner's lock")
+    for li in loops:
+        for jf in sorted(li.scanned):
+            roles.rebuild_rule(ctx, rep, li.owner, jf, "R-GUARDED", "%s.%s" % (li.owner.name, jf))
 
     flags = cancelling_flags(ctx)
     depth = max(ctx.depth, 6)
@@ -136,6 +142,8 @@ def check(ctx, rep):
     from .c02 import trans_rule
     P_ = roles.proto(ctx)
     trans_rule(ctx, rep, [c for c in prog.subclasses(P_.fut, strict=True)], P_.dispatch, P_.lock)
+    from .c02 import dispatch_rule
+    dispatch_rule(ctx, rep)
 
     # ---- delegate callbacks of _Future subclasses: methods registered on a delegate by the class itself
     n = 0
